@@ -1,22 +1,12 @@
-(* C43 — proofs, part 5: url_concat keeps the head, the fragment and the existing query
-   pairs and appends the arguments (ASCII scope of Model2.v). *)
+(* C43 — proofs, part 5b: url_concat keeps the head, the fragment and the existing query
+   pairs and appends the arguments (arbitrary Unicode; simple heads). *)
 From Coq Require Import List NArith Bool Arith Lia.
-From TV Require Import Lib.Obs C43.Model C43.Model2 C43.Spec C43.ProofsStart C43.ProofsHeader.
+From TV Require Import Lib.Obs C43.Model C43.Model2 C43.Spec C43.ProofsStart C43.ProofsHeader C43.ProofsUtf8.
 Import ListNotations.
 Local Open Scope N_scope.
 
-(* ---------- finite sweeps ---------- *)
-Definition nrange (n : nat) : list N := map N.of_nat (seq 0 n).
-Lemma nrange_in n c : c < N.of_nat n -> In c (nrange n).
-Proof.
-  intros H. unfold nrange. apply in_map_iff. exists (N.to_nat c). split; [apply N2Nat.id|].
-  apply in_seq. lia.
-Qed.
-Lemma sweep (p : N -> bool) n : forallb p (nrange n) = true -> forall c, c < N.of_nat n -> p c = true.
-Proof. intros H c Hc. rewrite forallb_forall in H. apply H. apply nrange_in. exact Hc. Qed.
-
-(* ---------- percent coding of one character ---------- *)
-Definition plus_to_sp (c : N) : N := if c =? 43 then 32 else c.
+(* ---------- percent coding of one byte ---------- *)
+Definition clean_char (x : N) : Prop := 32 < x /\ x < 128 /\ x <> 9 /\ x <> 10 /\ x <> 13.
 
 (* what the decoder needs from the three shapes produced by quote_plus_c *)
 Definition qp_char_ok (c : N) : bool :=
@@ -35,7 +25,7 @@ Definition sep_free (s : str) : Prop := ~ In 38 s /\ ~ In 61 s /\ ~ In 35 s /\ ~
 
 Lemma quote_plus_c_spec c : c < 256 ->
   (forall rest, pct_decode (map plus_to_sp (quote_plus_c c) ++ rest) = c :: pct_decode rest)
-  /\ sep_free (quote_plus_c c) /\ Forall (fun x => 32 < x /\ x <> 9 /\ x <> 10 /\ x <> 13) (quote_plus_c c).
+  /\ sep_free (quote_plus_c c) /\ Forall clean_char (quote_plus_c c).
 Proof.
   intros Hc. pose proof (qp_char_ok_all c Hc) as H. unfold qp_char_ok in H. unfold quote_plus_c.
   destruct (always_safe c) eqn:Es.
@@ -45,12 +35,12 @@ Proof.
       cbn [pct_decode]. rewrite (proj2 (N.eqb_neq c 37) H37). reflexivity.
     + unfold sep_free. cbn. repeat split; intros [E|[]]; congruence.
     + constructor; [|constructor]. unfold always_safe, is_alnum, is_alpha, is_upper, is_lower, is_digit in Es.
-      rewrite !orb_true_iff, !in_range_iff, memN_iff in Es. cbn in Es. lia.
+      rewrite !orb_true_iff, !in_range_iff, memN_iff in Es. cbn in Es. unfold clean_char. lia.
   - destruct (c =? 32) eqn:E32.
     + apply N.eqb_eq in E32. subst c. split; [|split].
       * intros rest. reflexivity.
       * unfold sep_free. cbn. repeat split; intros [E|[]]; discriminate.
-      * constructor; [lia|constructor].
+      * constructor; [unfold clean_char; lia|constructor].
     + set (a := hex_digit (c / 16)) in *. set (b := hex_digit (c mod 16)) in *.
       rewrite !andb_true_iff, !negb_true_iff in H.
       destruct H as [[[[[[Ha Hb] Hv] Ha43] Hb43] Ham] Hbm].
@@ -60,9 +50,9 @@ Proof.
         cbn [pct_decode]. rewrite N.eqb_refl, Ha, Hb. cbn [andb]. rewrite Hv. reflexivity.
       * unfold memN in Ham, Hbm. cbn [existsb] in Ham, Hbm. rewrite !orb_false_iff, !N.eqb_neq in Ham, Hbm.
         unfold sep_free. cbn. repeat split; intros [E|[E|[E|[]]]]; try discriminate; intuition congruence.
-      * assert (Hhex : forall x, is_hex x = true -> 32 < x /\ x <> 9 /\ x <> 10 /\ x <> 13).
-        { intros x Hx. unfold is_hex, is_digit in Hx. rewrite !orb_true_iff, !in_range_iff in Hx. lia. }
-        repeat constructor; try lia; try discriminate; apply Hhex; assumption.
+      * assert (Hhex : forall x, is_hex x = true -> clean_char x).
+        { intros x Hx. unfold is_hex, is_digit in Hx. rewrite !orb_true_iff, !in_range_iff in Hx. unfold clean_char. lia. }
+        constructor; [unfold clean_char; lia|]. constructor; [apply Hhex; exact Ha|]. constructor; [apply Hhex; exact Hb|constructor].
 Qed.
 
 Definition ascii (s : str) : Prop := Forall (fun c => c < 128) s.
@@ -72,28 +62,52 @@ Proof.
   split; intros H x Hx; specialize (H x Hx); [apply N.ltb_lt|apply N.ltb_lt]; exact H.
 Qed.
 
-Definition clean_char (x : N) : Prop := 32 < x /\ x <> 9 /\ x <> 10 /\ x <> 13.
-
-Lemma quote_plus_spec s : ascii s ->
-  (forall rest, pct_decode (map plus_to_sp (quote_plus s) ++ rest) = s ++ pct_decode rest)
-  /\ sep_free (quote_plus s) /\ Forall clean_char (quote_plus s).
+(* bytes -> percent text -> bytes *)
+Lemma quote_bytes_spec bs : Forall (fun b => b < 256) bs ->
+  (forall rest, pct_decode (map plus_to_sp (flat_map quote_plus_c bs) ++ rest) = bs ++ pct_decode rest)
+  /\ sep_free (flat_map quote_plus_c bs) /\ Forall clean_char (flat_map quote_plus_c bs).
 Proof.
   induction 1 as [|c s Hc Hs IH].
   - repeat split; try (intros []). constructor.
   - destruct IH as [IH1 [IH2 IH3]].
-    destruct (quote_plus_c_spec c) as [H1 [H2 H3]]; [lia|].
-    unfold quote_plus in *. cbn [flat_map]. split; [|split].
+    destruct (quote_plus_c_spec c Hc) as [H1 [H2 H3]].
+    cbn [flat_map]. split; [|split].
     + intros rest. rewrite map_app, <- app_assoc, H1, IH1. reflexivity.
     + unfold sep_free in *. rewrite !in_app_iff. tauto.
     + apply Forall_app. split; assumption.
 Qed.
 
-Lemma unquote_plus_quote_plus s : ascii s -> unquote_plus (quote_plus s) = Some s.
+Lemma pct_decode_no_pct x : ~ In 37 x -> pct_decode x = x.
 Proof.
-  intros H. unfold unquote_plus. destruct (quote_plus_spec s H) as [H1 _].
+  induction x as [|c x IH]; intros H; [reflexivity|]. cbn [pct_decode].
+  assert (Hc : (c =? 37) = false) by (apply N.eqb_neq; intros ->; apply H; left; reflexivity).
+  rewrite Hc, IH; [reflexivity|]. intros Hin. apply H. right. exact Hin.
+Qed.
+
+Lemma unquote_runs_ascii x : ascii x -> forall run,
+  unquote_runs x run = utf8_decode (pct_decode (rev run ++ x)).
+Proof.
+  induction 1 as [|c x Hc Hx IH]; intros run.
+  - cbn. rewrite app_nil_r. reflexivity.
+  - cbn [unquote_runs]. rewrite (proj2 (N.ltb_lt c 128) Hc), IH. cbn [rev]. rewrite <- app_assoc. reflexivity.
+Qed.
+
+(* quote_plus then unquote_plus is the identity on every encodable string *)
+Lemma quote_plus_spec s q : quote_plus s = Some q ->
+  unquote_plus q = s /\ sep_free q /\ Forall clean_char q.
+Proof.
+  unfold quote_plus. destruct (utf8_encode s) as [bs|] eqn:E; [|discriminate]. intros H. injection H as <-.
+  destruct (utf8_decode_encode s bs E) as [Hdec Hlt]. destruct (quote_bytes_spec bs Hlt) as [H1 [H2 H3]].
+  split; [|split; assumption].
   specialize (H1 []). rewrite app_nil_r in H1. cbn [pct_decode] in H1. rewrite app_nil_r in H1.
-  change (fun c : N => if c =? 43 then 32 else c) with plus_to_sp. rewrite H1.
-  apply is_ascii_str_iff in H. rewrite H. reflexivity.
+  set (q' := map plus_to_sp (flat_map quote_plus_c bs)) in *.
+  assert (Hascii : ascii q').
+  { unfold q', ascii. apply Forall_map. eapply Forall_impl; [|exact H3]. intros c Hc. unfold clean_char in Hc. unfold plus_to_sp.
+    destruct (c =? 43); lia. }
+  unfold unquote_plus. fold q'. unfold unquote. destruct (memN 37 q') eqn:Ep.
+  - rewrite (unquote_runs_ascii q' Hascii []). cbn [rev app]. rewrite H1. exact Hdec.
+  - assert (Hn : ~ In 37 q') by (intros Hin; apply memN_iff in Hin; congruence).
+    rewrite (pct_decode_no_pct q' Hn) in H1. rewrite <- Hdec, <- H1. symmetry. apply utf8_decode_ascii. exact Hascii.
 Qed.
 
 (* ---------- split / join ---------- *)
@@ -123,63 +137,52 @@ Proof.
 Qed.
 
 (* ---------- parse_qsl (urlencode l) = l ---------- *)
-Definition ascii_pair (kv : str * str) : Prop := ascii (fst kv) /\ ascii (snd kv).
-Definition enc_pair (kv : str * str) : str := quote_plus (fst kv) ++ 61 :: quote_plus (snd kv).
-
-Lemma qsl_fields_enc l : Forall ascii_pair l -> qsl_fields (map enc_pair l) = Some l.
+Lemma enc_pairs_spec l : forall fs, enc_pairs l = Some fs ->
+  qsl_fields fs = l /\ Forall (fun f => ~ In 38 f /\ f <> [] /\ ~ In 35 f /\ ~ In 63 f /\ Forall clean_char f) fs.
 Proof.
-  induction 1 as [|[k v] l [Hk Hv] Hl IH]; [reflexivity|].
-  cbn [map qsl_fields]. cbn [fst snd] in Hk, Hv. change (enc_pair (k, v)) with (quote_plus k ++ 61 :: quote_plus v).
-  destruct (quote_plus_spec k Hk) as [_ [[_ [Hk61 _]] _]].
-  assert (Hnil : is_nil (quote_plus k ++ 61 :: quote_plus v) = false) by (destruct (quote_plus k); reflexivity).
-  rewrite Hnil.
-  assert (Hs : split_first 61 (quote_plus k ++ 61 :: quote_plus v) = Some (quote_plus k, quote_plus v))
-    by (apply split_first_some; auto).
-  rewrite Hs, (unquote_plus_quote_plus k Hk), (unquote_plus_quote_plus v Hv), IH. reflexivity.
+  induction l as [|[k v] l IH]; intros fs H; cbn [enc_pairs] in H.
+  - injection H as <-. split; [reflexivity|constructor].
+  - destruct (quote_plus k) as [k'|] eqn:Ek; [|discriminate].
+    destruct (quote_plus v) as [v'|] eqn:Ev; [|discriminate].
+    destruct (enc_pairs l) as [r'|] eqn:Er; [|discriminate]. injection H as <-.
+    destruct (quote_plus_spec k k' Ek) as [Uk [[K38 [K61 [K35 K63]]] Kc]].
+    destruct (quote_plus_spec v v' Ev) as [Uv [[V38 [V61 [V35 V63]]] Vc]].
+    destruct (IH r' eq_refl) as [IH1 IH2]. split.
+    + cbn [qsl_fields].
+      assert (Hnil : is_nil (k' ++ 61 :: v') = false) by (destruct k'; reflexivity).
+      rewrite Hnil.
+      assert (Hs : split_first 61 (k' ++ 61 :: v') = Some (k', v')) by (apply split_first_some; auto).
+      rewrite Hs, Uk, Uv, IH1. reflexivity.
+    + constructor; [|exact IH2]. rewrite !in_app_iff. repeat split.
+      * intros [H|[H|H]]; [auto|discriminate|auto].
+      * destruct k'; discriminate.
+      * intros [H|[H|H]]; [auto|discriminate|auto].
+      * intros [H|[H|H]]; [auto|discriminate|auto].
+      * apply Forall_app. split; [exact Kc|]. constructor; [unfold clean_char; lia|exact Vc].
 Qed.
 
-Lemma enc_pair_no_amp kv : ascii_pair kv -> ~ In 38 (enc_pair kv).
-Proof.
-  intros [Hk Hv]. unfold enc_pair. destruct (quote_plus_spec _ Hk) as [_ [[Hk38 _] _]].
-  destruct (quote_plus_spec _ Hv) as [_ [[Hv38 _] _]].
-  rewrite in_app_iff. intros [H|[H|H]]; [auto|discriminate|auto].
-Qed.
-
-Lemma urlencode_eq l : urlencode l = join_with 38 (map enc_pair l).
-Proof. reflexivity. Qed.
-
-Lemma join_with_nonnil d f fs : f <> [] -> is_nil (join_with d (f :: fs)) = false.
+Lemma join_with_nonnil d (f : str) (fs : list str) : f <> [] -> is_nil (join_with d (f :: fs)) = false.
 Proof. intros H. destruct f; [contradiction|]. destruct fs; reflexivity. Qed.
 
-Lemma enc_pair_nonnil kv : enc_pair kv <> [].
-Proof. unfold enc_pair. destruct (quote_plus (fst kv)); discriminate. Qed.
-
-Theorem parse_qsl_urlencode l : Forall ascii_pair l -> parse_qsl (urlencode l) = Some l.
+Theorem parse_qsl_urlencode l q : urlencode l = Some q -> parse_qsl q = l.
 Proof.
-  intros H. rewrite urlencode_eq. unfold parse_qsl.
-  destruct l as [|kv l]; [reflexivity|].
-  inversion H as [|? ? Hkv Hl]; subst.
-  cbn [map]. rewrite (join_with_nonnil 38 _ _ (enc_pair_nonnil kv)). rewrite split_all_join.
-  - exact (qsl_fields_enc (kv :: l) H).
-  - apply Forall_map. eapply Forall_impl; [|exact Hl]. apply enc_pair_no_amp.
-  - apply enc_pair_no_amp. exact Hkv.
+  unfold urlencode. destruct (enc_pairs l) as [fs|] eqn:E; [|discriminate]. intros H. injection H as <-.
+  destruct (enc_pairs_spec l fs E) as [Hq Hf]. unfold parse_qsl.
+  destruct fs as [|f fs]; [cbn in Hq; subst l; reflexivity|].
+  pose proof (Forall_inv Hf) as (H38 & Hne & _). pose proof (Forall_inv_tail Hf) as Hfs.
+  rewrite (join_with_nonnil 38 f fs Hne), split_all_join; [exact Hq| |exact H38].
+  eapply Forall_impl; [|exact Hfs]. intros g Hg. apply Hg.
 Qed.
 
-Lemma urlencode_chars l : Forall ascii_pair l ->
-  ~ In 35 (urlencode l) /\ ~ In 63 (urlencode l) /\ Forall clean_char (urlencode l).
+Lemma urlencode_chars l q : urlencode l = Some q ->
+  ~ In 35 q /\ ~ In 63 q /\ Forall clean_char q.
 Proof.
-  rewrite urlencode_eq.
-  assert (Hone : forall kv, ascii_pair kv -> ~ In 35 (enc_pair kv) /\ ~ In 63 (enc_pair kv) /\ Forall clean_char (enc_pair kv)).
-  { intros kv [Hk Hv]. unfold enc_pair. destruct (quote_plus_spec _ Hk) as [_ [[_ [_ [Hk35 Hk63]]] Hkc]].
-    destruct (quote_plus_spec _ Hv) as [_ [[_ [_ [Hv35 Hv63]]] Hvc]].
-    rewrite !in_app_iff. repeat split.
-    - intros [H|[H|H]]; [auto|discriminate|auto].
-    - intros [H|[H|H]]; [auto|discriminate|auto].
-    - apply Forall_app. split; [exact Hkc|]. constructor; [unfold clean_char; lia|exact Hvc]. }
-  induction 1 as [|kv l Hkv Hl IH]; [repeat split; try (intros []); constructor|].
-  destruct (Hone kv Hkv) as [H35 [H63 Hc]]. destruct IH as [I35 [I63 Ic]].
-  destruct l as [|kv2 l]; [cbn [map join_with]; auto|].
-  change (join_with 38 (map enc_pair (kv :: kv2 :: l))) with (enc_pair kv ++ 38 :: join_with 38 (map enc_pair (kv2 :: l))).
+  unfold urlencode. destruct (enc_pairs l) as [fs|] eqn:E; [|discriminate]. intros H. injection H as <-.
+  destruct (enc_pairs_spec l fs E) as [_ Hf]. clear E.
+  induction Hf as [|f fs (_ & _ & H35 & H63 & Hc) Hfs IH]; [repeat split; try (intros []); constructor|].
+  destruct IH as [I35 [I63 Ic]].
+  destruct fs as [|g fs]; [cbn [join_with]; auto|].
+  change (join_with 38 (f :: g :: fs)) with (f ++ 38 :: join_with 38 (g :: fs)).
   rewrite !in_app_iff. repeat split.
   - intros [H|[H|H]]; [auto|discriminate|auto].
   - intros [H|[H|H]]; [auto|discriminate|auto].
@@ -316,29 +319,6 @@ Proof.
   rewrite H2. reflexivity.
 Qed.
 
-Lemma unquote_plus_ascii s r : unquote_plus s = Some r -> ascii r.
-Proof.
-  unfold unquote_plus. destruct (is_ascii_str _) eqn:E; [|discriminate]. intros H. injection H as <-.
-  apply is_ascii_str_iff. exact E.
-Qed.
-
-Lemma qsl_fields_ascii fs : forall l, qsl_fields fs = Some l -> Forall ascii_pair l.
-Proof.
-  induction fs as [|f fs IH]; intros l H; cbn in H.
-  - injection H as <-. constructor.
-  - destruct (is_nil f); [auto|].
-    destruct (match split_first 61 f with Some (n, v) => (n, v) | None => (f, []) end) as [n v].
-    destruct (unquote_plus n) as [n'|] eqn:En; [|discriminate].
-    destruct (unquote_plus v) as [v'|] eqn:Ev; [|discriminate].
-    destruct (qsl_fields fs) as [rest|]; [|discriminate]. injection H as <-.
-    constructor; [split; cbn; eapply unquote_plus_ascii; eassumption|auto].
-Qed.
-
-Lemma parse_qsl_ascii q l : parse_qsl q = Some l -> Forall ascii_pair l.
-Proof.
-  unfold parse_qsl. destruct (is_nil q); [intros H; injection H as <-; constructor|apply qsl_fields_ascii].
-Qed.
-
 Lemma pairs_eqb_refl l : list_eqb pair_eqb l l = true.
 Proof.
   induction l as [|[k v] l IH]; [reflexivity|]. cbn. unfold pair_eqb at 1. cbn [fst snd].
@@ -351,15 +331,10 @@ Theorem url_concat_ok u args r : url_concat u args = UcOk r -> url_result_ok u a
 Proof.
   unfold url_concat, url_result_ok.
   destruct (url_parts u) as [[head query] frag] eqn:Eu.
-  destruct (is_ascii_str u && args_ascii args && simple_head head) eqn:Ec; [|discriminate].
-  destruct (parse_qsl query) as [old|] eqn:Eq; [|discriminate].
+  destruct (simple_head head) eqn:Hhead; [|discriminate].
+  destruct (urlencode (parse_qsl query ++ args)) as [q|] eqn:Eq; [|discriminate].
   intros H. injection H as <-.
-  rewrite !andb_true_iff in Ec. destruct Ec as [[_ Hargs] Hhead].
-  assert (Hall : Forall ascii_pair (old ++ args)).
-  { apply Forall_app. split; [exact (parse_qsl_ascii _ _ Eq)|].
-    unfold args_ascii in Hargs. rewrite forallb_forall in Hargs. apply Forall_forall. intros kv Hin.
-    specialize (Hargs kv Hin). apply andb_true_iff in Hargs as [H1 H2]. split; apply is_ascii_str_iff; assumption. }
-  destruct (urlencode_chars _ Hall) as [H35 [H63 Hc]].
+  destruct (urlencode_chars _ _ Eq) as [H35 [H63 Hc]].
   assert (Hfrag : no_ws frag).
   { rewrite url_parts_eq in Eu. injection Eu as _ _ Ef.
     pose proof (url_clean_no_ws u) as Hw.
@@ -368,19 +343,64 @@ Proof.
     rewrite Hs in Hw. apply Forall_app in Hw as [_ Hw]. inversion Hw; assumption. }
   rewrite (url_parts_unparts head _ frag (simple_head_chars _ Hhead) H35 H63 Hc Hfrag).
   rewrite (proj2 (str_eqb_iff head head) eq_refl), (proj2 (str_eqb_iff frag frag) eq_refl).
-  rewrite (parse_qsl_urlencode _ Hall). cbn [andb]. apply pairs_eqb_refl.
+  rewrite (parse_qsl_urlencode _ _ Eq). cbn [andb]. apply pairs_eqb_refl.
 Qed.
 
-(* in scope the model always answers *)
-Lemma url_in_scope_ok u args : url_in_scope u args = true -> exists r, url_concat u args = UcOk r.
+(* in scope the model answers: a result, or UnicodeEncodeError exactly when some code point
+   of the old pairs or of the arguments cannot be encoded *)
+Lemma url_in_scope_cases u args : url_in_scope u = true ->
+  (exists r, url_concat u args = UcOk r /\ url_encodable u args = true)
+  \/ (url_concat u args = UcEncodeError /\ url_encodable u args = false).
 Proof.
-  unfold url_in_scope, url_concat. destruct (url_parts u) as [[head query] frag].
-  intros H. apply andb_true_iff in H as [H1 H2]. rewrite H1.
-  destruct (parse_qsl query); [eexists; reflexivity|discriminate].
+  unfold url_in_scope, url_concat, url_encodable. destruct (url_parts u) as [[head query] frag].
+  intros H. rewrite H. destruct (urlencode (parse_qsl query ++ args)); [left; eexists; split; reflexivity|right; split; reflexivity].
+Qed.
+
+(* urlencode fails exactly when a key or value contains a surrogate (or a value beyond U+10FFFF) *)
+Definition encodable_cp (c : N) : Prop := ~ (55296 <= c <= 57343 \/ 1114112 <= c).
+Lemma utf8_encode_some_iff s : (exists bs, utf8_encode s = Some bs) <-> Forall encodable_cp s.
+Proof.
+  induction s as [|c s IH]; cbn [utf8_encode].
+  - split; [constructor|eexists; reflexivity].
+  - destruct (utf8_encode_cp c) as [a|] eqn:Ec.
+    + destruct (utf8_encode s) as [b|] eqn:Es.
+      * split; [|eexists; reflexivity]. intros _. constructor.
+        -- unfold encodable_cp. rewrite <- utf8_encode_cp_none. congruence.
+        -- apply IH. eexists; reflexivity.
+      * split; [intros [bs H]; discriminate|]. intros H. inversion H; subst. apply IH in H3 as [bs Hbs]. discriminate.
+    + split; [intros [bs H]; discriminate|]. intros H. inversion H as [|? ? Hc _]; subst.
+      exfalso. apply Hc. apply utf8_encode_cp_none. exact Ec.
+Qed.
+
+Lemma urlencode_some_iff l :
+  (exists q, urlencode l = Some q) <-> Forall (fun kv => Forall encodable_cp (fst kv) /\ Forall encodable_cp (snd kv)) l.
+Proof.
+  unfold urlencode.
+  assert (H : (exists fs, enc_pairs l = Some fs) <-> Forall (fun kv => Forall encodable_cp (fst kv) /\ Forall encodable_cp (snd kv)) l).
+  { induction l as [|[k v] l IH]; cbn [enc_pairs].
+    - split; [constructor|eexists; reflexivity].
+    - unfold quote_plus. split.
+      + intros [fs Hfs].
+        destruct (utf8_encode k) as [bk|] eqn:Ek; [|discriminate].
+        destruct (utf8_encode v) as [bv|] eqn:Ev; [|discriminate].
+        destruct (enc_pairs l) as [r|] eqn:Er; [|discriminate].
+        constructor; [split; apply utf8_encode_some_iff; eexists; eassumption|]. apply IH. eexists; reflexivity.
+      + intros Hall. inversion Hall as [|? ? [Hk Hv] Hl]; subst. cbn [fst snd] in *.
+        apply utf8_encode_some_iff in Hk as [bk ->]. apply utf8_encode_some_iff in Hv as [bv ->].
+        apply IH in Hl as [r ->]. eexists; reflexivity. }
+  rewrite <- H. split.
+  - intros [q Hq]. destruct (enc_pairs l); [eexists; reflexivity|discriminate].
+  - intros [fs ->]. eexists; reflexivity.
 Qed.
 
 Example url_concat_example :
   (* url_concat("/p?a=b#f", [("c", "d e")]) = "/p?a=b&c=d+e#f" *)
   url_concat [47;112;63;97;61;98;35;102] [([99], [100;32;101])]
   = UcOk [47;112;63;97;61;98;38;99;61;100;43;101;35;102].
+Proof. reflexivity. Qed.
+
+Example url_concat_unicode_example :
+  (* url_concat("/p?k=%C3%A9", [("€", "😀")]) = "/p?k=%C3%A9&%E2%82%AC=%F0%9F%98%80" *)
+  url_concat [47;112;63;107;61;37;67;51;37;65;57] [([8364], [128512])]
+  = UcOk [47;112;63;107;61;37;67;51;37;65;57;38;37;69;50;37;56;50;37;65;67;61;37;70;48;37;57;70;37;57;56;37;56;48].
 Proof. reflexivity. Qed.
